@@ -121,8 +121,8 @@ type VC struct {
 	curB          *ssa.BasicBlock // block / instruction index of the top frame being executed
 	curI          int
 	skippedObls   int
-	curClause     *Expr    // clause being obliged (POST), for replay
-	replayIn      []string // SMT constants holding the entry values of the parameters (replayable functions only)
+	curClause     *Expr           // clause being obliged (POST), for replay
+	replayIn      []string        // SMT constants holding the entry values of the parameters (replayable functions only)
 	immKeys       map[string]bool // heap keys of `immutable` fields: a havoc keeps them on already-allocated objects
 	keyInt        map[string]types.Type
 	cutsHit       map[string]bool
@@ -320,6 +320,10 @@ func (vc *VC) oblige(st *State, kind, label, goal, where, desc string) {
 		return
 	}
 	if vc.ct != nil && vc.ct.HasFrom && !vc.inVerifiedTail() {
+		vc.skippedObls++
+		return
+	}
+	if vc.ct != nil && vc.ct.OnlyAsserts && kind != "ASSERT" && kind != "INV-entry" && kind != "INV-preserve" {
 		vc.skippedObls++
 		return
 	}
